@@ -198,7 +198,8 @@ class SFile(object):
         if mode == "r+" and not os.path.exists(self._filename):
             # path doesn't exist but we want to append.  Change the
             # mode to write
-            mode = "w+"
+            mode = "w"
+            self._mode = mode
 
         if self._mode[0] == "r":
             # if reading:
@@ -925,7 +926,7 @@ def write(outfile, data, **keys):
     append = keys.get("append", False)
 
     if append:
-        # if file doesn't yet exist, this will be changed to 'w+' internally.
+        # if file doesn't yet exist, this will be changed to 'w' internally.
         mode = "r+"
     else:
         mode = "w"
